@@ -144,7 +144,7 @@ def run(prop_id, modname, jobs_fn, meta, argv=None):
                 seen_jobs.add(jn)
                 order.append(c)
         order += [c for c in lst if c not in order]
-        for c in order[:6]:
+        for c in order[:int(os.environ.get("VERIF_MAX_REPLAYS", "16"))]:
             h = hashlib.sha1(json.dumps(c["replay"], sort_keys=True, default=str).encode()).hexdigest()[:10]
             path = os.path.join(VERIF, "replays", "%s_%s.json" % (prop_id, h))
             json.dump(c["replay"], open(path, "w"), indent=1, default=str)
